@@ -78,7 +78,8 @@ func (electsim) Generate(rng *Rand, prop, tier string) *Script {
 			s.Ops = append(s.Ops, Op{K: "start", A: r})
 		case x < 84:
 			// every attached replica is removed: the volume goes down and the next start is a new election round
-			s.Ops = append(s.Ops, Op{K: "drop"})
+			// F: the frontend is already down when they leave (what a volume revert that fails on every replica does)
+			s.Ops = append(s.Ops, Op{K: "drop", F: rng.Bool(40)})
 		case x < 88:
 			s.Ops = append(s.Ops, Op{K: "setrev", A: r, B: int64(rng.Range(1, 1000))})
 		case x < 93:
@@ -318,7 +319,11 @@ func (er *elRun) run() {
 				continue
 			}
 			done := false
+			feDown := op.F
 			simrt.GoNamed(er.ctrlN, fmt.Sprintf("admin/drop%d", i), func() {
+				if feDown {
+					fe.Shutdown()
+				}
 				cc := cclient.NewControllerClient("http://10.0.0.1:9501")
 				for _, r := range list {
 					cc.DeleteReplica(r.Address)
